@@ -235,9 +235,11 @@ type flushScenario struct {
 	mods     int
 	cache    string
 	cancelAt int
+	failAt   int // kind "sweep": writes complete one at a time in start order, the failAt-th completion fails
 }
 
 type flushRun struct {
+	ncomp int
 	sc    flushScenario
 	st    *ctlStore
 	gate  *mainGate
@@ -504,6 +506,11 @@ func (r *flushRun) attempt(sched []string, attemptNo int, random bool, rng *rand
 				time.Sleep(50 * time.Microsecond)
 				continue
 			}
+			if r.sc.kind == "sweep" && attemptNo == 1 {
+				r.ncomp++
+				r.st.complete(0, r.ncomp == r.sc.failAt)
+				continue
+			}
 			r.st.complete(rng.Intn(n), rng.Float64() < r.st.failProb)
 		}
 	}
@@ -556,7 +563,7 @@ func runSchedule(sc flushScenario, sched []string, out *json.Encoder, rng *rand.
 	r.st.failProb = 0.03
 	r.add(flushEvent{Op: "fbegin", Kind: sc.kind, Sched: append([]string{}, sched...)})
 	var res string
-	enabled, res = r.attempt(sched, 1, sc.kind == "big" || sc.kind == "cancel", rng)
+	enabled, res = r.attempt(sched, 1, sc.kind == "big" || sc.kind == "cancel" || sc.kind == "sweep", rng)
 	for a := 2; a <= 3 && res == "err"; a++ {
 		// between a failed attempt and the retry the tree is sometimes modified again (the retry must then persist the current contents)
 		if rng.Intn(2) == 0 {
@@ -733,6 +740,21 @@ func flushFamily(seed int64, n int, out *json.Encoder, budget int, scen int, par
 		sc := flushScenario{id: id, seed: seed*104729 + int64(i), kind: "big", bf: []uint{2, 3, 4}[rng.Intn(3)], nkeys: 150 + rng.Intn(300),
 			premods: []int{0, 200}[rng.Intn(2)], mods: 120 + rng.Intn(200), cache: []string{"none", "large"}[rng.Intn(2)]}
 		runSchedule(sc, nil, out, rng)
+	}
+	// 2a. one failing write at every position of the completion order of a large flush (writes completing one at a time, oldest first)
+	sweeps := 1 + n/50
+	for t := 0; t < sweeps; t++ {
+		trng := rand.New(rand.NewSource(seed*7 + int64(t)))
+		bf, nkeys, mods := []uint{2, 3, 4}[trng.Intn(3)], 150+trng.Intn(200), 50+trng.Intn(40)
+		for j := 1; j <= 100; j++ {
+			id++
+			if !mine() {
+				continue
+			}
+			rng := rand.New(rand.NewSource(seed*31 + int64(id)))
+			sc := flushScenario{id: id, seed: seed*50021 + int64(t), kind: "sweep", bf: bf, nkeys: nkeys, premods: 200, mods: mods, cache: "none", failAt: j}
+			runSchedule(sc, nil, out, rng)
+		}
 	}
 	// 2b. the caller's context ends while writes are still queued (the stores here ignore the context): whatever MakeRoot
 	// reports, a success must be complete
